@@ -112,6 +112,10 @@ C06_Converge(b1, b2, given1, given2, ops1, ops2, read1, read2) ==
 \* a state reached through accepted operations and merges is accepted as valid: `res` is the
 \* result of checking it (verify on its own, or as the source of another replica's verified merge)
 C06_Closure(res) == res = "Ok"
+\* the same for a verified merge of such a state into another replica of the register.  `fits` = the
+\* merged register would be within the entry-count limit: refusing a merge whose result would not fit
+\* is not a verdict on the validity of the source state.
+C06_ClosureMerge(res, fits) == fits => res = "Ok"
 
 \* ------------------------------------------------------------------ part 3
 CONSTANTS Replicas,    \* honest replicas
@@ -214,8 +218,12 @@ MergeAssoc == \A r, s, t \in Replicas :
 MergeIdem == \A r \in Replicas : C06_MergeIdem(Val(r), MergeVal(base[r], Val(r), base[r], Val(r)))
 Converge == \A r, s \in Replicas :
     C06_Converge(base[r], base[s], given[r], given[s], ops[r], ops[s], RV(r), RV(s))
-\* every honest replica passes verification (on its own and hence as a verified-merge source)
-Closure == \A r \in Replicas : \A res \in VerifyRes(Pool, base[r], ops[r], Cnt(r), Limit) : C06_Closure(res)
+\* every honest replica passes verification, on its own and as the source of a verified merge
+Closure ==
+    /\ \A r \in Replicas : \A res \in VerifyRes(Pool, base[r], ops[r], Cnt(r), Limit) : C06_Closure(res)
+    /\ \A r, s \in Replicas : (r # s /\ SameBase(base[r], base[s])) =>
+          \A res \in VMergeRes(Pool, base[r], base[s], ops[s], Cnt(s), Limit) :
+              C06_ClosureMerge(res, Cardinality(ops[r] \cup ops[s]) <= Limit)
 \* action property: the step just taken let in only valid operations / rejected what must be rejected
 AuthorisedStep ==
     \A r \in Replicas :
